@@ -8,7 +8,7 @@ namespace EPV.Cmp
 open EPV.CmpSpec EPV.CmpFind
 
 macro "gp_simp" : tactic => `(tactic|
-  simp [pairGeneral, iterCheck, iterMatch, categoryOK, cmpCategory, kindName, pairSpec, castThen, castUntyped, valueOp, isBoolA, isStrLike3, isStr, isQN, isUri, isInteger,
+  simp [pairGeneral, iterCheck, iterMatch, qnMake, categoryOK, cmpCategory, kindName, pairSpec, castThen, castUntyped, valueOp, isBoolA, isStrLike3, isStr, isQN, isUri, isInteger,
      Atom.isDur, numRank, castNum, pyOp, pyBinop, subclassFirst, dunder, Atom.pyNum, numCmp, liftPy, dCmp_eq_six, isEqNe, isUA,
      sCmp, iCmp, bCmp, cmpBy_eq_six, Atom.isDT, Atom.isBin, Atom.dt, Atom.binVal, Atom.durVal, durInstanceOf,
      binOrdered, strLtS, strEqS, octLt, D.isNaN, Op.isOrd])
@@ -21,14 +21,14 @@ theorem strLt_eq : strLt = strLtS := rfl
 
 /-- untypedAtomic (left) against integer / double -/
 theorem pg_ua_num (m : Mode) (op : Op) (s : Str) (b : Atom) (y : D)
-    (hb : (∃ v : Int, b = .int v ∧ y = .fin v ∧ toD64 v = .fin v) ∨ b = .dbl y ∨ (∃ q : Rat, b = .dec q) ∨ b = .flt y)
+    (hb : (∃ v : Int, b = .int v) ∨ b = .dbl y ∨ (∃ q : Rat, b = .dec q) ∨ b = .flt y)
     (h5 : pairSpec m op (.ua s) b ≠ .error .unsupported) :
     pairGeneral m op (.ua s) b = pairSpec m op (.ua s) b := by
-  rcases hb with ⟨v, rfl, rfl, hv⟩ | rfl | ⟨q, rfl⟩ | rfl
+  rcases hb with ⟨v, rfl⟩ | rfl | ⟨q, rfl⟩ | rfl
   · revert h5
     gp_simp
     simp only [strToDouble, castDouble]
-    cases lexNum s <;> simp [Except.map, valueOp, numRank, castNum, hv]
+    cases lexNum s <;> simp [Except.map, valueOp, numRank, castNum]
   · revert h5
     gp_simp
     simp only [strToDouble, castDouble]
@@ -44,14 +44,14 @@ theorem pg_ua_num (m : Mode) (op : Op) (s : Str) (b : Atom) (y : D)
 
 /-- integer / double (left) against untypedAtomic: the reflected method of UntypedAtomic answers -/
 theorem pg_num_ua (m : Mode) (op : Op) (s : Str) (a : Atom) (x : D)
-    (ha : (∃ v : Int, a = .int v ∧ x = .fin v ∧ toD64 v = .fin v) ∨ a = .dbl x ∨ (∃ q : Rat, a = .dec q) ∨ a = .flt x)
+    (ha : (∃ v : Int, a = .int v) ∨ a = .dbl x ∨ (∃ q : Rat, a = .dec q) ∨ a = .flt x)
     (h5 : pairSpec m op a (.ua s) ≠ .error .unsupported) :
     pairGeneral m op a (.ua s) = pairSpec m op a (.ua s) := by
-  rcases ha with ⟨v, rfl, rfl, hv⟩ | rfl | ⟨q, rfl⟩ | rfl
+  rcases ha with ⟨v, rfl⟩ | rfl | ⟨q, rfl⟩ | rfl
   · revert h5
     gp_simp
     simp only [strToDouble, castDouble]
-    cases lexNum s <;> simp [Except.map, valueOp, numRank, castNum, hv, six_swap]
+    cases lexNum s <;> simp [Except.map, valueOp, numRank, castNum, six_swap]
   · revert h5
     gp_simp
     simp only [strToDouble, castDouble]
@@ -117,14 +117,14 @@ theorem pg_ua_uri (m : Mode) (op : Op) (s t : Str)
     simp [h, hw, valueOp, numRank, strLtS, strEqS, strLt]
     rfl
 
-theorem pg_uri_ua (m : Mode) (op : Op) (s t : Str) (h4 : trigUntyped op (.uri s) (.ua t) = false)
-    (h5 : pairSpec m op (.uri s) (.ua t) ≠ .error .unsupported) :
+/-- anyURI (left) against untypedAtomic: the untyped value is cast to xs:anyURI -/
+theorem pg_uri_ua (m : Mode) (op : Op) (s t : Str)
+    (h6 : pairGeneral m op (.uri s) (.ua t) ≠ .error .unsupported) :
     pairGeneral m op (.uri s) (.ua t) = pairSpec m op (.uri s) (.ua t) := by
-  simp [trigUntyped] at h4
-  by_cases hw : hasInnerWs t = true
-  · exact absurd (by gp_simp; simp [hw]) h5
+  rcases strToUri_cases t with h | ⟨h, hw⟩
+  · exact absurd (by gp_simp; simp [h]) h6
   · gp_simp
-    simp [hw, h4, valueOp, numRank, strLtS, strEqS, strLt]
+    simp [h, hw, valueOp, numRank, strLtS, strEqS, strLt]
     rfl
 
 /-- untypedAtomic (left) against a date/time/duration: the cast fails with FORG0001 on both sides
@@ -283,55 +283,59 @@ theorem qn_protocol (m : Mode) (op : Op) (a p b c q d : Str) (f : Nat) :
   cases op <;> simp [pyBinop, subclassFirst, dunder, liftPy, valueOp, numRank, isEqNe, six, Op.swap, PyR.map] <;> grind
 
 theorem strToQName_err {s : Str} {e : PyR} (h : strToQName s = .error e) :
-    e = .unsupported ∨ e = .valueErr ∨ e = .exc .keyError := by
+    e = .unsupported ∨ e = .valueErr := by
   unfold strToQName at h
   split at h <;> cases h <;> simp
-
-theorem pyOp_ua_qn (m : Mode) (op : Op) (s ns pre loc : Str) :
-    pyOp m op (.ua s) (.qn ns pre loc) =
-      match strToQName s with
-      | .ok (ns', _, loc') => pyBinop m op (.qn ns' [] loc') (.qn ns [] loc) 6
-      | .error e => e := by
-  have h : dunder m op (.ua s) (.qn ns pre loc) 7 =
-      match strToQName s with
-      | .ok (ns', _, loc') => pyBinop m op (.qn ns' [] loc') (.qn ns [] loc) 6
-      | .error e => e := by rfl
-  show pyBinop m op (.ua s) (.qn ns pre loc) (7 + 1) = _
-  rw [pyBinop_step m op _ _ 7 rfl, h]
-  cases hs : strToQName s with
-  | ok x =>
-    obtain ⟨a, b, c⟩ := x
-    have := pyBinop_ne_notImpl m op (.qn a [] c) (.qn ns [] loc) 6
-    simp only
-    try (split <;> simp_all)
-  | error e =>
-    rcases strToQName_err hs with rfl | rfl | rfl <;> simp
 
 theorem valueOp_bin_swap (bo : Bool) (op : Op) (x y : List Nat) :
     valueOp bo op.swap (.hex y) (.hex x) = valueOp bo op (.hex x) (.hex y) ∧
     valueOp bo op.swap (.b64 y) (.b64 x) = valueOp bo op (.b64 x) (.b64 y) := by
   constructor <;> cases op <;> cases bo <;> simp [valueOp, numRank, isEqNe, Op.swap, six] <;> grind
 
-theorem pairGeneral_ua_left (m : Mode) (op : Op) (s : Str) (b : Atom) (hb : isUA b = false) :
+theorem pairGeneral_ua_left (m : Mode) (op : Op) (s : Str) (b : Atom) (hb : b.isBin = true) :
     pairGeneral m op (.ua s) b = liftPy (pyOp m op (.ua s) b) := by
-  cases b <;> simp_all [pairGeneral, iterCheck, iterMatch, categoryOK, isUA]
+  cases b <;> simp_all [pairGeneral, iterCheck, iterMatch, categoryOK, Atom.isBin]
 
-/-- untypedAtomic (left) against QName, XPath 3.1: the untyped value is cast to a QName in no namespace -/
-theorem pg_ua_qn (op : Op) (s ns pre loc : Str)
-    (h5 : pairSpec .v31 op (.ua s) (.qn ns pre loc) ≠ .error .unsupported) :
-    pairGeneral .v31 op (.ua s) (.qn ns pre loc) = pairSpec .v31 op (.ua s) (.qn ns pre loc) := by
-  rw [pairGeneral_ua_left _ _ _ _ rfl, pyOp_ua_qn]
-  revert h5
-  simp only [pairSpec, castThen, castUntyped, strToQName, if_true]
-  cases ncName s with
-  | valid v =>
-    intro _
-    have := qn_protocol .v31 op [] [] v ns [] loc 4
-    simp only [this]
-    cases op <;> simp [valueOp, numRank, isEqNe]
-  | invalid => intro _; simp [liftPy]
-  | prefixed => intro h; simp at h
-  | unsupported => intro h; simp at h
+/-- untypedAtomic against QName, either side: XPath 3.1 casts the untyped value to a QName (in no
+namespace when unprefixed); the 2.0 parsers raise XPTY0004 (that cast is not permitted in XPath 2.0) -/
+theorem pg_ua_qn (m : Mode) (op : Op) (s ns pre loc : Str)
+    (h5 : pairSpec m op (.ua s) (.qn ns pre loc) ≠ .error .unsupported) :
+    pairGeneral m op (.ua s) (.qn ns pre loc) = pairSpec m op (.ua s) (.qn ns pre loc) := by
+  by_cases hm : m = .v31
+  · subst hm
+    revert h5
+    simp only [pairGeneral, iterCheck, iterMatch, qnMake, categoryOK, pairSpec, castThen, castUntyped, strToQName, if_true]
+    cases ncName s with
+    | valid v =>
+      intro _
+      have := qn_protocol .v31 op [] [] v ns pre loc 6
+      simp only [pyOp, this]
+    | invalid => intro _; simp [liftPy]
+    | prefixed => intro h; simp at h
+    | unsupported => intro h; simp at h
+  · simp [pairGeneral, iterCheck, iterMatch, qnMake, pairSpec, hm, liftPy]
+
+theorem valueOp_qn_pre (bo : Bool) (op : Op) (a p b c q d : Str) :
+    valueOp bo op (.qn a p b) (.qn c q d) = valueOp bo op (.qn a [] b) (.qn c [] d) := by
+  simp [valueOp, numRank]
+
+theorem pg_qn_ua (m : Mode) (op : Op) (s ns pre loc : Str)
+    (h5 : pairSpec m op (.qn ns pre loc) (.ua s) ≠ .error .unsupported) :
+    pairGeneral m op (.qn ns pre loc) (.ua s) = pairSpec m op (.qn ns pre loc) (.ua s) := by
+  by_cases hm : m = .v31
+  · subst hm
+    revert h5
+    simp only [pairGeneral, iterCheck, iterMatch, qnMake, categoryOK, pairSpec, castThen, castUntyped, strToQName, if_true]
+    cases ncName s with
+    | valid v =>
+      intro _
+      have := qn_protocol .v31 op ns pre loc [] [] v 6
+      simp only [pyOp, this]
+      rw [valueOp_qn_pre, valueOp_qn_pre _ _ ns pre loc]
+    | invalid => intro _; simp [liftPy]
+    | prefixed => intro h; simp at h
+    | unsupported => intro h; simp at h
+  · simp [pairGeneral, iterCheck, iterMatch, qnMake, pairSpec, hm, liftPy]
 
 /-- untypedAtomic against hexBinary / base64Binary, either side -/
 theorem pg_ua_hex (m : Mode) (op : Op) (s : Str) (y : List Nat)
@@ -389,7 +393,7 @@ set_option maxHeartbeats 1000000 in
 /-- numeric against numeric -/
 theorem pg_numeric (m : Mode) (op : Op) (a b : Atom) (i j : Nat)
     (hi : numRank a = some i) (hj : numRank b = some j)
-    (h1 : trigTol false op a b = false) (h2 : trigPromotion false a b = false) :
+    (h1 : trigTol op a b = false) (h2 : trigPromotion a b = false) :
     pairGeneral m op a b = pairSpec m op a b := by
   cases a <;> simp [numRank] at hi <;> cases b <;> simp [numRank] at hj <;>
     simp [trigPromotion, numRank, exactVal, castNum] at h2 <;>
